@@ -258,4 +258,63 @@ theorem rank_spec (ext : Ext ℝ) (base : List ℝ) (data : List (ℝ × ℝ)) (
       · intro j tr' hj hjtr
         exact hbefore j _ hj (by rw [List.getElem?_map, hjtr]; rfl)
 
+/-- **The ranking path is total.**  With both extra-candidate calibrations evaluated, a non-empty data
+    set, an increasing grid and candidates whose CDF evaluates (their `check_fit` passes), the path
+    returns: `_compute_empirical` does not raise and `np.argmax` of the (NaN-free) score vector is a
+    valid index into `copula_candidates`. -/
+theorem selection_total (ext : Ext ℝ) (base : List ℝ) (data : List (ℝ × ℝ)) (τ : ℝ) (θF : Bound ℝ)
+    (extra : List (Cand ℝ))
+    (hextra : extraCandidates ext.frankSolve τ Gen.SelectCopula.extraFamilies = .ok extra)
+    (hlen : Gen.SelectCopula.steps ≤ base.length) (hdata : data ≠ []) (hinc : base.Pairwise (· < ·))
+    (hcdf : ∀ c ∈ (⟨.frank, τ, θF⟩ : Cand ℝ) :: extra, ∀ zs, ∃ r, cdfDiag ext.inf c zs = .ok r) :
+    ∃ t c, rankPath ext base data τ θF = .ok (.ranked t c) := by
+  have hemp := empirical_index_safe base data hlen hdata hinc
+  generalize empSpec (fun b => Gen.SelectCopula.ratio (countLeft data b) data.length)
+      (fun b => Gen.SelectCopula.ratio (countRight data b) data.length)
+      (base.take Gen.SelectCopula.steps) = emp at hemp
+  obtain ⟨curves, hcurves⟩ := allCurves_ok ext.inf emp.zLeft emp.zRight _ hcdf
+  have hl := allCurves_length _ _ _ _ _ hcurves
+  have hlt := pickIdx_lt (curves.map (distTriple emp.L emp.R)) (by
+    intro hnil
+    have : curves.length = 0 := by simpa using congrArg List.length hnil
+    simp [hl] at this)
+  rw [List.length_map, hl] at hlt
+  unfold rankPath
+  rw [hextra]
+  simp only []
+  rw [hemp]
+  simp only []
+  rw [hcurves]
+  simp only [List.getElem?_eq_getElem hlt]
+  exact ⟨_, _, rfl⟩
+
+/-- non-vacuity of the hypothesis `selectOutcome … = .ok (.ranked t c)` of `shared_tau` / `rank_spec`
+    and of the hypotheses of `selection_total`: τ = 1/2, Frank θ = 5, one data row, grid 0,1,…,49. -/
+example : ∃ (ext : Ext ℝ) (base : List ℝ) (data : List (ℝ × ℝ)) (t : Trace ℝ) (c : Cand ℝ),
+    selectOutcome ext base data = .ok (.ranked t c) := by
+  let ext : Ext ℝ := ⟨⟨0, 1, 0, 1, 1/2, false, false⟩, fun _ => 5, 0⟩
+  have hfit : Model.fit Family.frank ext.frankSolve ext.fitInput { tau := none, theta := none }
+      = (.ok (), ⟨some (1/2), some (.fin 5)⟩) := by
+    simp [ext, Model.fit, marginalOk, computeThetaFam, checkThetaB, checkTheta, thetaLower, thetaUpper,
+      invalidThetas, Gen.Frank.thetaLower, Gen.Frank.thetaUpper, Gen.Frank.invalidThetas,
+      Bound.leVal, Bound.valLe]
+  have hext := candidates_closed_form ext.frankSolve (1/2) (by norm_num) (by norm_num)
+  obtain ⟨t, c, h⟩ := selection_total ext (List.map (fun i : ℕ => (i : ℝ)) (List.range Gen.SelectCopula.steps))
+    [(1/4, 3/4)] (1/2) (.fin 5) _ hext (by simp) (by simp)
+    (List.Pairwise.map _ (fun a b h => by exact_mod_cast h) List.pairwise_lt_range)
+    (by
+      intro c hc zs
+      simp only [List.mem_cons, List.not_mem_nil, or_false] at hc
+      rcases hc with rfl | rfl | rfl
+      · norm_num [cdfDiag, boundVal, Gen.Frank.cdf, checkFit, checkTheta, Gen.Frank.thetaLower,
+          Gen.Frank.thetaUpper, Gen.Frank.invalidThetas, Bound.leVal, Bound.valLe]
+      · norm_num [cdfDiag, boundVal, Gen.Clayton.cdf, checkFit, checkTheta, Gen.Clayton.thetaLower,
+          Gen.Clayton.thetaUpper, Gen.Clayton.invalidThetas, Bound.leVal, Bound.valLe]
+        split <;> simp
+      · norm_num [cdfDiag, boundVal, Gen.Gumbel.cdf, checkFit, checkTheta, Gen.Gumbel.thetaLower,
+          Gen.Gumbel.thetaUpper, Gen.Gumbel.invalidThetas, Bound.leVal, Bound.valLe])
+  refine ⟨ext, List.map (fun i : ℕ => (i : ℝ)) (List.range Gen.SelectCopula.steps), [(1/4, 3/4)], t, c, ?_⟩
+  rw [ranking_path_when_tau_positive ext _ _ _ hfit (by norm_num [ext])]
+  exact h
+
 end CopVerif.Props.C11
